@@ -384,16 +384,101 @@ def report(ctx, problems, histories, own, real_cmd, model_cmd, env):
             break
 
 
+
+# ---------------------------------------------------------------------------------------------------------------
+# state lists (GenNodeList / MgrNodeList / GenericNode::Remove): model lean/StepModel/GenNodeList.lean, theorems
+# C13_state_lists_* ; harness/h_gennodelist.cc vs m_c13l on identical op streams, plus a plain-list reference.
+SL_NN = 8
+
+
+def sl_ref_lines(seq):
+    a, b, out = [], [], []
+    for op in seq:
+        n = op[-1]
+        if n in a: a.remove(n)
+        if n in b: b.remove(n)
+        if op[0] == "a":
+            (b if op[1] == 1 else a).append(n)
+        u = [x for x in range(2, SL_NN + 2) if x not in a and x not in b]
+        f = lambda l: "".join(" %d" % x for x in l)
+        out.append("F0:%s | R0:%s | F1:%s | R1:%s | U:%s" % (f(a), f(a[::-1]), f(b), f(b[::-1]), f(u)))
+    return out
+
+
+def sl_line(op):
+    return "a %d %d" % (op[1], op[2]) if op[0] == "a" else "r %d" % op[1]
+
+
+def sl_exhaustive(depth, nodes):
+    ops = [("a", l, n) for l in (0, 1) for n in nodes] + [("r", n) for n in nodes]
+    res = [[]]
+    allh = []
+    for _ in range(depth):
+        res = [h + [o] for h in res for o in ops]
+        allh += res
+    return allh
+
+
+def state_lists(ctx, b):
+    exe = os.path.join(ctx.work, "h_gennodelist")
+    B.compile_driver(b, [os.path.join(VERIF, "harness", "h_gennodelist.cc")], exe)
+    model = ctx.model_exe("m_c13l")
+    if not os.path.exists(model):
+        return
+    quick = ctx.tier == "quick"
+    hist = sl_exhaustive(4 if quick else 5, [2, 3, 4])
+    nr, rl = (300, 60) if quick else (3000, 200)
+    for _ in range(nr):
+        h = []
+        for _ in range(ctx.rng.randint(1, rl)):
+            n = ctx.rng.randint(2, SL_NN + 1)
+            h.append(("r", n) if ctx.rng.random() < 0.3 else ("a", ctx.rng.randint(0, 1), n))
+        hist.append(h)
+    lines = []
+    for h in hist:
+        lines.append("reset")
+        lines += [sl_line(o) for o in h]
+    t = time.time()
+    real = run_proc([exe], lines, env=b.env())[1]
+    mod = run_proc([model], lines)[1]
+    bad = None
+    i = 0
+    for hi, h in enumerate(hist):
+        want = ["ok"] + sl_ref_lines(h)
+        r, m = real[i:i + len(h) + 1], mod[i:i + len(h) + 1]
+        i += len(h) + 1
+        for k in range(len(h) + 1):
+            rk = r[k] if k < len(r) else "<no output>"
+            mk = m[k] if k < len(m) else "<no output>"
+            if rk != want[k] or mk != want[k]:
+                who = ("implementation" if rk != want[k] else "") + ("+model" if mk != want[k] else "")
+                bad = (h[:k], who, want[k], rk, mk)
+                break
+        if bad:
+            break
+    for h in hist:
+        ctx.count(1, key=("state-lists", tuple(h)))
+    ctx.cov["correspondence"]["state-lists"] = {"histories": len(hist), "ops": len(lines) - len(hist), "problems": 0 if bad is None else 1,
+                                                "wall_s": round(time.time() - t, 1),
+                                                "rule": "every history of <= %d ops over {Append to A, Append to B, Remove} x 3 nodes, plus %d random histories of up to %d ops over %d nodes; after every op the forward and backward traversal of both lists and the set of unlinked nodes, compared three ways (real MgrNodeList/MgrNode, Lean model, plain-list reference)" % (4 if quick else 5, nr, rl, SL_NN)}
+    if bad:
+        pre, who, want, rk, mk = bad
+        ctx.broken.append(("correspondence GenNodeList model vs src/clutils/gennodelist.cc, include/clutils/gennode.h, src/clstepcore/mgrnodelist.cc",
+                           "%s deviates from the list reference after %s: expected '%s', implementation '%s', model '%s' (state lists are outside the clauses of the statement, so no failing input of the property itself is claimed)"
+                           % (who, [sl_line(o) for o in pre], want, rk, mk)))
+
+
 def run(ctx):
     ctx.trusted += [
         "tools/extract.d/instmgr.py (regex translation of NextFileId/reset values/sentinel to Lean)",
         "hand-written model lean/StepModel/InstMgr.lean of instmgr.cc, mgrnodearray.cc, gennodearray.cc (modelled, tied by correspondence)",
         "harness/h_instmgr.cc and the op generators in checks/c13.py (what they do not generate is not compared)",
+        "hand-written model lean/StepModel/GenNodeList.lean of gennodelist.cc / gennode.h / mgrnodelist.cc (state lists; tied by the correspondence of harness/h_gennodelist.cc)",
     ]
     ctx.assumptions += ["file ids stay below 2^31 (the model uses unbounded Int)",
                         "entity names are compared after PrettyTmpName normalisation; the model abstracts names to tags",
                         "API contract: indices < InstanceCount(), instances alive, Delete(instance) only for instances in the manager"]
-    proof_ok = ctx.lean("StepModel.Props.C13", exes=["m_c13"], extractors=["instmgr", "enums"])
+    proof_ok = ctx.lean("StepModel.Props.C13", exes=["m_c13", "m_c13l"], extractors=["instmgr", "enums"])
     b = ctx.build("asan" if ctx.tier == "thorough" else "plain")
     exe = os.path.join(ctx.work, "h_instmgr")
     B.compile_driver(b, [os.path.join(VERIF, "harness", "h_instmgr.cc")], exe)
@@ -438,6 +523,8 @@ def run(ctx):
                 # violation search: the remaining batches still run, judged by the oracle alone
         if stop:
             break
+    if not ctx.violations:
+        state_lists(ctx, b)
     if corr is not None and not ctx.violations:
         ctx.cov["search"] = "model/implementation disagreement; every remaining history batch was still judged by the property oracle and satisfied it"
         ctx.broken.append(("correspondence InstMgr model vs src/clstepcore/instmgr.cc",
